@@ -16,6 +16,7 @@ import (
 	"github.com/invopop/gobl/tax"
 
 	"verif/internal/ev"
+	"verif/internal/srv"
 )
 
 // C19 — published definition files are what the code defines, and coherent.
@@ -345,6 +346,7 @@ func runC19(c *Ctx) {
 		}
 		c.R.Case(true, ev.Hash("catalogue", key))
 	}
+	c19served(c)
 	c.R.Set("registered", map[string]int{"regimes": len(tax.AllRegimeDefs()), "addons": len(tax.AllAddonDefs()), "catalogues": len(tax.AllCatalogueDefs())})
 	c.R.Exhaustive(true)
 }
@@ -370,4 +372,81 @@ func firstDiff(a, b []byte) string {
 		}
 	}
 	return "no line difference"
+}
+
+
+// c19served: what the running CLI serves (bulk actions "regime", "schema",
+// "schemas") is exactly the shipped files.
+func c19served(c *Ctx) {
+	gbin := filepath.Join(ev.Root(), "bin", "gobl")
+	if _, err := os.Stat(gbin); err != nil {
+		c.R.Inconclusive("no-cli-binary")
+		return
+	}
+	server, err := srv.Start(gbin)
+	if err != nil {
+		c.R.Inconclusive("server-start:" + err.Error())
+		return
+	}
+	defer server.Stop()
+	repo := ev.Repo()
+	type want struct {
+		id   string
+		file string
+	}
+	var reqs []map[string]any
+	var wants []want
+	for n, p := range listFiles(filepath.Join(repo, "data", "regimes")) {
+		code := strings.TrimSuffix(n, ".json")
+		id := "regime:" + code
+		reqs = append(reqs, map[string]any{"action": "regime", "req_id": id, "payload": map[string]any{"code": strings.ToUpper(code)}})
+		wants = append(wants, want{id, p})
+	}
+	for n, p := range listFiles(filepath.Join(repo, "data", "schemas")) {
+		id := "schema:" + n
+		reqs = append(reqs, map[string]any{"action": "schema", "req_id": id, "payload": map[string]any{"path": strings.TrimSuffix(n, ".json")}})
+		wants = append(wants, want{id, p})
+	}
+	var body bytes.Buffer
+	for _, r := range reqs {
+		b, _ := json.Marshal(r)
+		body.Write(b)
+		body.WriteByte('\n')
+	}
+	resp, err := server.PostStream("/bulk", &body)
+	if err != nil {
+		c.R.Inconclusive("bulk-transport:" + err.Error())
+		return
+	}
+	rs, _ := readBulk(resp.Body)
+	resp.Body.Close()
+	got := map[string]bulkResp{}
+	for _, r := range rs {
+		if !r.IsFinal {
+			got[r.ReqID] = r
+		}
+	}
+	for _, w := range wants {
+		r, ok := got[w.id]
+		disk, _ := os.ReadFile(w.file)
+		switch {
+		case !ok:
+			c.R.Fail("served-missing:"+strings.SplitN(w.id, ":", 2)[0], "no response for "+w.id, w.id)
+		case len(r.Error) > 0 && string(r.Error) != "null":
+			c.R.Fail("served-error:"+w.id, "the server cannot serve the shipped file "+w.id+": "+trunc(string(r.Error)), w.id)
+		default:
+			var a, b any
+			if json.Unmarshal(r.Payload, &a) != nil || json.Unmarshal(disk, &b) != nil || !jsonEqual(a, b) {
+				c.R.Fail("served-differs:"+w.id, "the file served for "+w.id+" differs from the shipped file", w.id)
+			}
+		}
+		c.R.Case(true, ev.Hash("served", w.id))
+	}
+	c.R.Count("served_files_compared", int64(len(wants)))
+}
+
+func jsonEqual(a, b any) bool {
+	x, _ := json.Marshal(a)
+	y, _ := json.Marshal(b)
+	return bytes.Equal(x, y)
 }
